@@ -207,6 +207,24 @@ def configs(rng, n, kinds=("rat", "irr")):
     return out
 
 
+def confirm(cfg, env):
+    """Search one configuration (keys of checks/crcommon.py) for a concrete misalignment on the real code: ramp read-back.
+    Returns a description of what was measured, or None when the ramp reads back within tolerance."""
+    c = P.mkcfg(float(cfg["ir"]), float(cfg["or"]), int(cfg.get("recipe", 4)), int(cfg.get("qflags", 0)), 0 if (env or {}).get("SOXR_USE_SIMD") == "0" else 1)
+    for k in ("prec", "min", "large", "kb", "rtflags", "phase", "pb", "sb"):
+        if k in cfg:
+            c[k] = cfg[k]
+    P.harness()
+    r = ramp_job(c)
+    if "err" not in r:
+        return None
+    tol, tolc = ramp_tolerance(r)
+    if r["err"] > tol or r["errc"] > tolc:
+        return ("ramp read-back over %d frames: output frame at t = %.3f reads %.6g input periods off t_k = k*irate/orate (tolerance %.3g); about the zero "
+                "crossing %.6g (tolerance %.3g)" % (r["N"], r["at"], r["err"], tol, r["errc"], tolc))
+    return None
+
+
 def _known_f1(r, known):
     return "F1" in known and "F1" in cr.classify_known(r.get("plan", []), {})
 
